@@ -469,6 +469,12 @@ class MayRaise:
                 for a in list(ex.args) + [k.value for k in ex.keywords]:
                     out |= self.expr_escapes(a, ctx)
             q = self.m.resolve_name(fi.module, norm(cls_expr)) or norm(cls_expr)
+            if isinstance(ex, ast.Call) and q in self.m.classes:
+                # building the exception runs the class's own __init__ / __post_init__: whatever that can raise replaces the exception
+                for mname in ("__init__", "__post_init__"):
+                    mt = self.m.find_method(q, mname)
+                    if mt is not None and not (mname == "__init__" and self.m.classes[q].is_dataclass):
+                        out |= self.call_summary(mt, q, ctx, ex, recv=None)
             if q not in self.m.classes and q not in BUILTIN_EXC_PARENTS:
                 q = "Other"
             prov = "-"
@@ -1048,6 +1054,9 @@ class MayRaise:
                 esc = self.site(ctx, e, "enum-conversion", "ValueError", ok, "value may not be a member" if not ok else "_missing_ accepts every int")
                 if esc:
                     out.add(esc)
+                if missing is not None:
+                    # the conversion runs _missing_ for every value that is not a member: what it can raise leaves the conversion
+                    out |= self.call_summary(missing, q, ctx, e, recv=None)
                 return out
             init = self.m.find_method(q, "__init__")
             if init is not None and not c.is_dataclass:
@@ -1062,6 +1071,44 @@ class MayRaise:
         self.unknown_calls.append(f"{fi.qualname}:{e.lineno} {norm(e)[:80]}")
         out.add(Esc("Other", fi.qualname, norm(e)[:120], e.lineno, "unknown-call"))
         return out
+
+    def enum_classes_passed(self, fi: FuncInfo, pname: str) -> List[str]:
+        """the package enum classes that call sites bind to the Type[...] parameter `pname` of fi; every enum class of the
+        package when some call site passes something that is not a plain class name"""
+        key = (fi.qualname, pname)
+        memo = self.__dict__.setdefault("_enum_passed", {})
+        if key in memo:
+            return memo[key]
+        a = fi.node.args
+        pos = [p.arg for p in a.posonlyargs + a.args]
+        if fi.cls and not fi.is_staticmethod and pos:
+            pos = pos[1:]
+        idx = pos.index(pname) if pname in pos else None
+        found: Set[str] = set()
+        every = False
+        for cf in list(self.m.functions.values()):
+            if isinstance(cf.node, ast.Lambda):
+                continue
+            for c in walk_no_nested(cf.node):
+                if not isinstance(c, ast.Call):
+                    continue
+                nm = c.func.attr if isinstance(c.func, ast.Attribute) else c.func.id if isinstance(c.func, ast.Name) else None
+                if nm != fi.name:
+                    continue
+                arg = next((k.value for k in c.keywords if k.arg == pname), None)
+                if arg is None and idx is not None and idx < len(c.args) and not any(isinstance(x, ast.Starred) for x in c.args):
+                    arg = c.args[idx]
+                if arg is None:
+                    continue
+                q = self.m.resolve_name(cf.module, norm(arg)) if isinstance(arg, (ast.Name, ast.Attribute)) else None
+                if q in self.m.classes and self.m.classes[q].is_enum:
+                    found.add(q)
+                else:
+                    every = True
+        if every or not found:
+            found = {q for q, c in self.m.classes.items() if c.is_enum}
+        memo[key] = sorted(found)
+        return memo[key]
 
     def _missing_total(self, fi: FuncInfo) -> bool:
         # every return in _missing_ returns a non-None value except under `not isinstance(value, int)`
@@ -1196,6 +1243,11 @@ class MayRaise:
             return out
         if name == "typevar-ctor":
             add("enum-conversion", "ValueError", False, "conversion to the requested enum type may fail")
+            # the conversion runs the _missing_ hook of whichever enum class was passed in
+            for q in self.enum_classes_passed(fi, e.func.id if isinstance(e.func, ast.Name) else ""):
+                missing = self.m.find_method(q, "_missing_")
+                if missing is not None:
+                    out |= self.call_summary(missing, q, ctx, e, recv=None)
             return out
         if name == "int":
             if e.args:
@@ -1302,7 +1354,8 @@ class MayRaise:
                 add("index", "ValueError", False, "substring may be absent")
                 return out
             if base in ("str", "strlike") and meth in ("format", "format_map"):
-                add("format", "LookupError", False, "format field may be missing")
+                ok, why = self.format_ok(e, fi)
+                add("format", "LookupError", ok, why)
                 return out
             if base in PURE_METHODS and meth in PURE_METHODS[base]:
                 return out
@@ -1313,6 +1366,50 @@ class MayRaise:
         self.unknown_calls.append(f"{fi.qualname}:{e.lineno} {norm(e)[:80]} [{name}]")
         out.add(Esc("Other", fi.qualname, norm(e)[:120], e.lineno, "unknown-call"))
         return out
+
+    def format_ok(self, e: ast.Call, fi: FuncInfo) -> Tuple[bool, str]:
+        """"<constant template>".format(args): every replacement field names a supplied argument, and a field with a
+        format spec is given a value of a type that accepts the spec (int presentation types on an int, none on the rest)"""
+        import string
+        tpl = e.func.value
+        if not (isinstance(tpl, ast.Constant) and isinstance(tpl.value, str)) or e.func.attr != "format":
+            return False, "format field may be missing (template is not a literal)"
+        if any(isinstance(a, ast.Starred) for a in e.args) or any(k.arg is None for k in e.keywords):
+            return False, "format field may be missing (starred arguments)"
+        try:
+            fields = list(string.Formatter().parse(tpl.value))
+        except ValueError:
+            return False, "malformed format template"
+        auto = 0
+        kws = {k.arg: k.value for k in e.keywords}
+        for _lit, name, spec, conv in fields:
+            if name is None:
+                continue
+            if name == "":
+                arg = e.args[auto] if auto < len(e.args) else None
+                auto += 1
+            elif name.isdigit():
+                arg = e.args[int(name)] if int(name) < len(e.args) else None
+            elif name.isidentifier():
+                arg = kws.get(name)
+            else:
+                return False, f"format field `{name}` looks inside its argument"
+            if arg is None:
+                return False, f"format field `{name}` has no argument"
+            if spec and "{" in spec:
+                return False, "nested format spec"
+            if spec and conv is None:
+                at = self.r.strip_opt(self.r.type_of(arg, fi))
+                kind = spec[-1]
+                if kind in "bcdoxXn":
+                    if at not in (prim("int"), prim("bool")):
+                        return False, f"integer format spec `{spec}` on a value of type {at}"
+                elif kind in "s<>^" or kind.isdigit():
+                    if at not in (prim("int"), prim("str"), prim("strlike")):
+                        return False, f"format spec `{spec}` on a value of type {at}"
+                else:
+                    return False, f"format spec `{spec}` not modelled"
+        return True, "every replacement field of the literal template has its argument"
 
     def to_bytes_ok(self, e: ast.Call, facts: FrozenSet[Fact], fi: FuncInfo) -> Tuple[bool, str]:
         """x.to_bytes(n, "big") cannot overflow when x >= 0, unsigned, and n is (by its only definition in the function)
